@@ -28,6 +28,8 @@ NO_TRUNC = dict(max_bond_dim=float("inf"), rel_tol=float("-inf"), total_tol=floa
 def gen_cases(ctx):
     rng = ctx.rng
     cases = []
+    for par in gen.HARD_SHAPES:
+        cases.append({"kind": "notrunc", "par": par, "seed": rng.randrange(10 ** 9), "steps": 3})
     for _ in range(ctx.n(14, 200)):
         kind = rng.choice([None, "spider", "chain", "star", "bush", "bush", "twig"])
         n = rng.choice([4, 5, 6]) if kind else rng.choice([2, 3, 4, 5])
